@@ -317,6 +317,13 @@ RESTART:
 		return tmconsensus.HandleProposedHeaderBadSignature
 	}
 
+	// The kernel told us which block the proposed header has to build on.
+	// A previous commit proof for any other block cannot be
+	// a commit of the block we know at the previous height.
+	if len(checkResp.PrevBlockHash) > 0 && !bytes.Equal(checkResp.PrevBlockHash, ph.Header.PrevBlockHash) {
+		return tmconsensus.HandleProposedHeaderBadPrevCommitVoteCount
+	}
+
 	// Now, make sure that the proposed header's PrevCommitProof matches
 	// what we think the previous commit is supposed to be.
 	// The easiest thing to check first is the validator hash.
